@@ -100,6 +100,26 @@ func main() {
 			}
 			emit(c)
 		}
+	case "kc":
+		if replay != "" {
+			var c kcCase
+			mustReadJSON(replay, &c)
+			begin(&c)
+			runKcCase(&c)
+			emit(&c)
+			return
+		}
+		maxOps := 10
+		if *filter == "long" {
+			maxOps = 40
+		}
+		for i := lo; i < hi; i++ {
+			r := newRng(*seed*1000003 + uint64(i))
+			c := genKcCase(r, i, maxOps)
+			begin(c)
+			runKcCase(c)
+			emit(c)
+		}
 	default:
 		fmt.Fprintf(os.Stderr, "unknown scenario %s\n", *scn)
 		os.Exit(2)
